@@ -35,7 +35,7 @@ def runScanCase (line : String) : String × String :=
   let vSig (v : View) : String := s!"{v.pos}/{v.peeked}/{b2s v.sawEnd}{b2s v.ioErr}/{v.rest.length}"
   -- (the generated scanners ask the view for one offset at a time, which costs O(offset) on a list: they
   -- are only executed on inputs of at most 4 KiB; the `scale` cases are covered by the theorems)
-  let small := decide (data.length ≤ 4096)
+  let small := decide (data.length ≤ 4096) && field fs "nogen" != "1"
   let agreeN (g : Unit → Option Nat × View) (o : Nat) (v : View) : String :=
     if !small then "" else
     let r := g ()
